@@ -1011,7 +1011,14 @@ func (v *Verifier) execRange(fr *Frame, st *State, x *ast.RangeStmt, label strin
 		panic(unsupportedf(x.Pos(), "range over string"))
 	case *types.Chan:
 		// a loop draining a channel: supported when the body writes nothing the caller can see
-		v.eval(fr, st, x.X)
+		chv := v.eval(fr, st, x.X)
+		if ov, ok := chv.(OpaqueVal); ok && v.eng.IntIdx() {
+			// ghost flag: the channel has been drained until closed (drainedCh)
+			defer func() {
+				h := v.ghostHeap(st, gChanDrained)
+				v.setGhostHeap(st, gChanDrained, v.eng.C.Store(h, ov.ID, v.eng.C.True()))
+			}()
+		}
 		log := newWriteLog()
 		d := st.fork()
 		d.log = log
